@@ -244,7 +244,7 @@ def filters(
     @st.composite
     def sub(draw: t.Any) -> t.Any:
         initial = draw(st.none() | SV)
-        anys = draw(st.lists(SV, max_size=3))
+        anys = draw(dups(st.lists(SV, max_size=3)))
         final = draw(st.none() | SV)
         if rfc_text_domain and initial is None and final is None and not anys:
             anys = [draw(SV)]
@@ -271,7 +271,7 @@ def filters(
 
     def extend(kids: t.Any) -> t.Any:
         return st.one_of(
-            st.tuples(st.sampled_from(["and", "or"]), st.lists(kids, min_size=min_set, max_size=4)),
+            st.tuples(st.sampled_from(["and", "or"]), dups(st.lists(kids, min_size=min_set, max_size=4))),
             st.tuples(st.just("not"), kids),
         )
 
@@ -331,7 +331,7 @@ def controls() -> st.SearchStrategy[t.Any]:
 
 
 def control_lists() -> st.SearchStrategy[t.List[t.Any]]:
-    return st.one_of(st.just([]), st.lists(controls(), max_size=3))
+    return st.one_of(st.just([]), dups(st.lists(controls(), max_size=3)))
 
 
 def result_codes() -> st.SearchStrategy[int]:
@@ -346,13 +346,31 @@ def results(big: bool = False) -> st.SearchStrategy[t.Any]:
             "code": result_codes(),
             "matched": text(big),
             "diag": text(big),
-            "referral": st.none() | st.lists(text(), max_size=3),
+            "referral": st.none() | dups(st.lists(text(), max_size=3)),
         }
     )
 
 
 def msg_ids() -> st.SearchStrategy[int]:
     return st.one_of(st.integers(0, 300), st.sampled_from([2**31 - 1, 2**31, 127, 128, 255, 256, 65535, 65536]), ints())
+
+
+def dups(lists: t.Any) -> t.Any:
+    """The list strategy, with (1 time in 4, when non-empty) one element repeated: right after itself, at the end, or
+    both - code that goes through a set / dict, or that treats the first or last element specially, needs repeats."""
+    def rep(x: t.Tuple[t.List[t.Any], int, int]) -> t.List[t.Any]:
+        lst, k, how = x
+        if not lst or how < 9:
+            return lst
+        i = k % len(lst)
+        out = list(lst)
+        if how in (9, 11):
+            out.insert(i + 1, lst[i])
+        if how in (10, 11):
+            out.append(lst[i])
+        return out
+
+    return st.tuples(lists, st.integers(0, 63), st.integers(0, 11)).map(rep)
 
 
 def _long(elem: t.Any, small: t.Any) -> t.Any:
@@ -406,14 +424,14 @@ def message(kinds: t.Optional[t.Sequence[str]] = None, big: bool = False, filt: 
             time=st.one_of(st.just(0), nonneg_ints(), ints()),
             typesOnly=st.booleans(),
             filter=F,
-            attributes=_long(st.sampled_from(["cn", "*", "1.1", "objectClass"]), st.lists(st.one_of(text(), st.sampled_from(ATTRIBUTE_NAMES)), max_size=4)),
+            attributes=_long(st.sampled_from(["cn", "*", "1.1", "objectClass"]), dups(st.lists(st.one_of(text(), st.sampled_from(ATTRIBUTE_NAMES)), max_size=4))),
         ),
         "searchResEntry": dict(name=T, attributes=_long(
             st.tuples(st.sampled_from(["cn", "member"]), st.lists(small_octets(4), max_size=2)),
-            st.lists(st.tuples(st.one_of(text(), text(), st.sampled_from(ATTRIBUTE_NAMES)),
-                               st.one_of(st.lists(O, max_size=3), st.lists(O, max_size=3), st.just([b"v"] * 200), st.just([b"dup", b"dup"]))), max_size=4))),
+            dups(st.lists(st.tuples(st.one_of(text(), text(), st.sampled_from(ATTRIBUTE_NAMES)),
+                                    st.one_of(dups(st.lists(O, max_size=3)), st.lists(O, max_size=3), st.just([b"v"] * 200), st.just([b"dup", b"dup"]))), max_size=4)))),
         "searchResDone": dict(result=results(big)),
-        "searchResRef": dict(uris=_long(st.sampled_from(["ldap://a/dc=x", ""]), st.lists(text(), max_size=4))),
+        "searchResRef": dict(uris=_long(st.sampled_from(["ldap://a/dc=x", ""]), dups(st.lists(text(), max_size=4)))),
         "extendedReq": dict(name=st.one_of(text(), text(), st.sampled_from(known_oids())), value=st.none() | O),
         "extendedResp": dict(result=results(big), name=st.one_of(st.none(), text(), text(), st.sampled_from(known_oids())), value=st.none() | O),
     }
